@@ -1,7 +1,9 @@
-//@unit name=cache props=C12
+//@unit name=cache props=C12,C01,C08
 //@strip-pub
 // Unit `cache`: the page cache's insert / evict / remove / get / clear discipline (C12: data
-// survives any amount of eviction; the only permitted failure is an explicit out-of-memory
+// survives any amount of eviction; C01/C08: NO-STEAL -- a dirty frame never leaves the cache through
+// eviction, so the data file changes only at a checkpoint and is, after a crash, a state the
+// logical log can be replayed against (fix f7fd299); the only permitted failure is an explicit out-of-memory
 // error from a cache too small to hold one operation).
 //@trusted [env] indexmap::IndexMap<PageId, MemFrame> is an insertion-ordered sequence of (key, frame) pairs with unique keys; contains_key/get/get_mut/insert/get_index/swap_remove_index/swap_remove/len/is_empty have the documented IndexMap semantics (swap_remove moves the last entry into the hole)
 //@trusted [env] MemFrame (Arc<RwLock<page>>): page_number()/is_free()/is_dirty() are pure observers of an abstract frame value; clone() yields a handle to the same page
@@ -152,6 +154,10 @@ pub open spec fn holds(s: Seq<(u64, MemFrame)>, f: MemFrame) -> bool {
 pub open spec fn any_free(s: Seq<(u64, MemFrame)>) -> bool {
     exists|i: int| 0 <= i < s.len() && (#[trigger] s[i]).1.free()
 }
+// a frame that may be evicted: nobody uses it and the data file already has its contents
+pub open spec fn any_free_clean(s: Seq<(u64, MemFrame)>) -> bool {
+    exists|i: int| 0 <= i < s.len() && (#[trigger] s[i]).1.free() && !s[i].1.dirty()
+}
 
 mod lem {
     use super::*;
@@ -189,12 +195,13 @@ impl PageCache {
 //@ use-lemmas lem::lemma_swap_removed_keeps_others
 //@ requires old(self).inv(),
 //@ ensures
-//@   [C12:evict.only_free] r matches Ok(Some(v)) ==> v.free(),
+//@   [C12,C01,C08:evict.only_free_and_clean] r matches Ok(Some(v)) ==> v.free() && !v.dirty(),
 //@   [C12:evict.victim_was_cached] r matches Ok(Some(v)) ==> holds(old(self).entries(), v),
 //@   [C12:evict.no_other_loss] r is Ok ==> (forall|i: int| #![trigger old(self).entries()[i]] 0 <= i < old(self).entries().len() ==> holds(final(self).entries(), old(self).entries()[i].1) || r == Ok::<Option<MemFrame>, IoError>(Some(old(self).entries()[i].1))),
-//@   [C12:evict.none_only_when_empty] r matches Ok(None) ==> old(self).entries().len() == 0,
+//@   [C12:evict.none_only_when_empty_or_only_dirty_frames_could_go] r matches Ok(None) ==> final(self).entries() == old(self).entries() && (old(self).entries().len() == 0 || (any_free(old(self).entries()) && !any_free_clean(old(self).entries()))),
 //@   [C12:evict.err_keeps_all] r is Err ==> final(self).entries() == old(self).entries(),
 //@   [C12:evict.finds_free_if_any] r is Err ==> !any_free(old(self).entries()),
+//@   [C12:evict.takes_a_clean_free_frame_if_any] any_free_clean(old(self).entries()) ==> r matches Ok(Some(_)),
 //@   [C12:evict.len] final(self).entries().len() <= old(self).entries().len() && (r matches Ok(Some(v)) ==> final(self).entries().len() + 1 == old(self).entries().len()),
 //@   [C12:evict.keys_subset] forall|k: u64| has_key(final(self).entries(), k) ==> has_key(old(self).entries(), k),
 //@   [C12:evict.keeps_inv] final(self).inv() && final(self).cap() == old(self).cap(),
@@ -202,14 +209,16 @@ impl PageCache {
 //@   invariant_except_break
 //@     fv_none(found_victim),
 //@     self.frames@ == old(self).frames@,
-//@     forall|i: int| 0 <= i < self.cursor && i < self.frames@.len() ==> !(#[trigger] self.frames@[i]).1.free(),
+//@     forall|i: int| 0 <= i < self.cursor && i < self.frames@.len() ==> !((#[trigger] self.frames@[i]).1.free() && !self.frames@[i].1.dirty()),
+//@     dirty_but_free ==> any_free(self.frames@),
+//@     !dirty_but_free ==> (forall|i: int| 0 <= i < self.cursor && i < self.frames@.len() ==> !(#[trigger] self.frames@[i]).1.free()),
 //@   invariant
 //@     self.cursor <= self.frames@.len() + 1,
 //@     self.capacity == old(self).capacity,
 //@     old(self).inv(),
 //@   ensures
-//@     fv_none(found_victim) ==> (self.frames@ == old(self).frames@ && self.cursor > self.frames@.len() && (forall|i: int| 0 <= i < self.frames@.len() ==> !(#[trigger] self.frames@[i]).1.free())),
-//@     !fv_none(found_victim) ==> (self.cursor < old(self).frames@.len() && fv_is(found_victim, old(self).frames@[self.cursor as int].1) && old(self).frames@[self.cursor as int].1.free() && self.frames@ == swap_removed(old(self).frames@, self.cursor as int)),
+//@     fv_none(found_victim) ==> (self.frames@ == old(self).frames@ && self.cursor > self.frames@.len() && (forall|i: int| 0 <= i < self.frames@.len() ==> !((#[trigger] self.frames@[i]).1.free() && !self.frames@[i].1.dirty())) && (dirty_but_free ==> any_free(self.frames@)) && (!dirty_but_free ==> (forall|i: int| 0 <= i < self.frames@.len() ==> !(#[trigger] self.frames@[i]).1.free()))),
+//@     !fv_none(found_victim) ==> (self.cursor < old(self).frames@.len() && fv_is(found_victim, old(self).frames@[self.cursor as int].1) && old(self).frames@[self.cursor as int].1.free() && !old(self).frames@[self.cursor as int].1.dirty() && self.frames@ == swap_removed(old(self).frames@, self.cursor as int)),
 //@   decreases self.frames@.len() + 1 - self.cursor,
 //@end
 
@@ -219,9 +228,9 @@ impl PageCache {
 //@ ensures
 //@   [C12:insert.caches_the_frame] r is Ok ==> holds(final(self).entries(), frame),
 //@   [C12:insert.no_loss] r is Ok ==> (forall|i: int| #![trigger old(self).entries()[i]] 0 <= i < old(self).entries().len() ==> holds(final(self).entries(), old(self).entries()[i].1) || r == Ok::<Option<MemFrame>, IoError>(Some(old(self).entries()[i].1)) || old(self).entries()[i].0 == frame.id()),
-//@   [C12:insert.evicts_only_free] r matches Ok(Some(v)) ==> (v.free() && holds(old(self).entries(), v)),
+//@   [C12,C01,C08:insert.evicts_only_free_and_clean] r matches Ok(Some(v)) ==> (v.free() && !v.dirty() && holds(old(self).entries(), v)),
 //@   [C12:insert.evicts_only_when_full] r matches Ok(Some(v)) ==> old(self).cap() <= old(self).entries().len(),
-//@   [C12:insert.respects_capacity] r is Ok ==> (final(self).entries().len() <= old(self).entries().len() || final(self).entries().len() <= old(self).cap() || old(self).entries().len() == 0),
+//@   [C12:insert.grows_past_capacity_only_when_nothing_clean_can_go] r is Ok ==> (final(self).entries().len() <= old(self).entries().len() || final(self).entries().len() <= old(self).cap() || old(self).entries().len() == 0 || !any_free_clean(old(self).entries())),
 //@   [C12:insert.err_keeps_all] r is Err ==> final(self).entries() == old(self).entries(),
 //@   [C12:insert.err_only_when_all_pinned] r is Err ==> (!any_free(old(self).entries()) && old(self).cap() <= old(self).entries().len()),
 //@   [C12:insert.keeps_inv] final(self).inv() && final(self).cap() == old(self).cap(),
